@@ -301,6 +301,63 @@ fn build_wal_base(rng: &mut Rng) -> Result<Base, String> {
             sess.write(vec![(blob_key, Some(value))])?;
         }
     }
+    // A sparse value: 70 000 zero bytes (its log record spans three blocks and its Middle fragment is
+    // nothing but zeroes - read as a record of its own that is "sequence 0, no operations, then
+    // left-over bytes").
+    {
+        let key = b"sparse-zero-value".to_vec();
+        universe.insert(key.clone());
+        sess.write(vec![(key, Some(vec![0u8; 70_000]))])?;
+    }
+    // A batch whose First fragment ends exactly between two of its operations: header + the first m
+    // operations fill the rest of the current block to the byte, the other operations follow in the
+    // next block. (Read alone, the First fragment is a well-formed prefix of the batch.)
+    {
+        let wal_len = |fs: &SimFs| -> usize { fs.image().files.iter().filter(|(p, _)| classify(p) == PathClass::Wal).map(|(_, b)| b.len()).max().unwrap_or(0) };
+        let payload_of = |ops: &[WriteOp]| -> Result<usize, String> {
+            let scratch_fs = SimFs::from_image(&dbutil::root_image());
+            let mut scratch = Session::new(scratch_fs.clone(), cfg);
+            scratch.open()?;
+            scratch.write(ops.to_vec())?;
+            let len = wal_len(&scratch_fs);
+            scratch.close();
+            Ok(len.saturating_sub(7))
+        };
+        let mut left = 32768 - wal_len(&fs) % 32768;
+        if left < 2000 {
+            // too little room in this block: move on to the next one first
+            let key = b"aligned-filler".to_vec();
+            universe.insert(key.clone());
+            sess.write(vec![(key, Some(vec![b'f'; left + 100]))])?;
+            left = 32768 - wal_len(&fs) % 32768;
+        }
+        let room = left - 7; // payload of the First fragment
+        let m = 3usize;
+        let mk = |i: usize, len: usize| -> WriteOp { (format!("al{i:04}").into_bytes(), Some(format!("aligned-{i:04}-").into_bytes().into_iter().chain(std::iter::repeat(b'a')).take(len).collect())) };
+        let base_len = 200usize;
+        let mut first_len = room.saturating_sub(400 + 2 * (base_len + 10));
+        let mut head: Vec<WriteOp> = vec![];
+        for _ in 0..4 {
+            head = (0..m).map(|i| mk(i, if i == 0 { first_len } else { base_len })).collect();
+            let p = payload_of(&head)?;
+            if p == room {
+                break;
+            }
+            first_len = (first_len as i64 + room as i64 - p as i64).max(20) as usize;
+        }
+        if payload_of(&head)? == room {
+            let mut ops = head;
+            for i in m..m + 4 {
+                ops.push(mk(i, base_len));
+            }
+            // the last operation overwrites the first key: a prefix of the batch shows a value that was never committed
+            ops.push(mk(0, 64));
+            for (k, _) in &ops {
+                universe.insert(k.clone());
+            }
+            sess.write(ops)?;
+        }
+    }
     while written < target {
         watch::tick();
         let mut ops: Vec<WriteOp> = vec![];
